@@ -361,13 +361,17 @@ Definition sn_eqb (a b : state * nat) : bool := state_eqb (fst a) (fst b) && (sn
    with whatever mask the engine still carries: (heralds id, n) of the last use_mask, None = no mask *)
 Inductive simm_op := SmHeralds (h : nat) | SmProbsSvd (n : nat) (pnr : bool) | SmProbs.
 Definition simm_state := (nat * option (nat * nat))%type.       (* heralds id, engine mask *)
-Definition simm_step (s : simm_state) (o : simm_op) : simm_state * option (option (nat * nat)) :=
+(* [fixed] = Simulator._evolve_cache clears a leftover engine mask first (/repo commit bc7ab4f9, the code as it is
+   now); false = the code before it *)
+Definition simm_step (fixed : bool) (s : simm_state) (o : simm_op) : simm_state * option (option (nat * nat)) :=
   match o with
   | SmHeralds h => ((h, snd s), None)
   | SmProbsSvd n pnr => ((fst s, if negb (fst s =? 0)%nat && pnr then Some (fst s, n) else None), None)
-  | SmProbs => (s, Some (snd s))                       (* the mask the evolution is computed under *)
+  | SmProbs => if fixed then ((fst s, None), Some None)
+               else (s, Some (snd s))                  (* the mask the evolution is computed under *)
   end.
-Definition simm_run (h : list simm_op) : simm_state := fold_left (fun s o => fst (simm_step s o)) h (0%nat, None).
+Definition simm_run (fixed : bool) (h : list simm_op) : simm_state :=
+  fold_left (fun s o => fst (simm_step fixed s o)) h (0%nat, None).
 
 (* ------------------------------------------------------------------------------------------------ *)
 (* Part 3: MPSBackend._cutoff.  _compile: if cutoff is None or < d: cutoff = d; cutoff = min(cutoff, d**(m//2)) *)
@@ -378,7 +382,8 @@ Inductive mps_op := MpsCutoff (c : nat) | MpsCirc (m : nat) | MpsIn (n : nat).
 Record mps_st := { mps_cut : option nat;               (* self._cutoff *)
                    mps_user : option nat;              (* the last set_cutoff (configuration) *)
                    mps_m : nat; mps_n : option nat }.
-(* [fixed]: the bond dimension is computed per compilation from the configured cutoff, never stored back *)
+(* [fixed] = every compilation starts from the requested cutoff (_requested_cutoff, /repo commit 3d5f407f, the code
+   as it is now); false = the code before it, which started from the value stored by the previous compilation *)
 Definition mps_step (fixed : bool) (s : mps_st) (o : mps_op) : mps_st :=
   match o with
   (* the compiled state is not rebuilt by set_cutoff: the input has to be set again before a query *)
